@@ -24,15 +24,17 @@ handle ever taken is probed after every operation.
     replayed the edits only (differential).
 
 Known defects of the pinned tree (findings.d/C13.txt; witnesses corpus/C13/finding_*.json).
-The generator (on-line, in the driver) evaluates the trigger predicates on the
-live model and does not draw the operation:
+The generator (on-line, in the driver: deletion_triggers) evaluates the trigger predicates on the
+live model and does not draw the operation (counted in distribution):
   D14   deleting a space whose tree holds live ItemSpaces
   C13a  deleting a space one of whose *child* spaces is a base of another space
-  C13c  a member (cells, child space, derived cells) disappears from a space while a
-        space that contains it has live ItemSpaces (their dynamic copies survive)
-  D22/D21 (values through an attribute path) and D23 (rename), C13b (uncached cells of a
-        deleted space), C13d (new_space(bases=<dead>) raises TypeError) are outside the
-        generator's vocabulary: witnesses only.
+  C13c  a member (cells, child space, derived cells) disappears from a space of which an ItemSpace of a
+        containing space holds a live dynamic copy (the copy survives)
+  C13e  deleting a space that has a sub space inside its own tree (KeyError half-way, stale graph)
+  D3    remove_bases / del space when a sub space inherits along two routes (IndexError half-way)
+  D22/D21 (values through an attribute path), D23 (rename), C13b (uncached cells of a deleted space)
+        are outside the generator's vocabulary: witnesses only.
+corpus/C13/input_*.json: input values (outside the model's vocabulary) of deleted cells, (P) only.
 Operations refused for lack of a C3 order are dropped (counted: no_mro)."""
 import os, json, glob
 import fw
@@ -46,7 +48,7 @@ TRUSTED = ["C3 linearisation is not modelled in this layer: the existence of a d
 ASSUMPTIONS = ["vocabulary: spaces, cells (cached, one parameter, formulas: constant / sibling call / call through a model-level "
                "reference), ItemSpaces of static spaces, model-level references to spaces; no renaming, no input values, "
                "no uncached cells, no space-level references",
-               "known-defect triggers D14 C13a C13c avoided by the generator (see module docstring)"]
+               "known-defect triggers D14 C13a C13c C13e D3 avoided by the generator (see module docstring)"]
 CORPUS = os.path.join(fw.VERIF, "corpus", "C13")
 
 PROFILES = {
@@ -80,7 +82,7 @@ def gen_ftab(rng):
 
 
 def gen_cases(rng, tier):
-    n = 260 if tier == "quick" else 3000
+    n = 1500 if tier == "quick" else 16000
     cases = []
     profs = list(PROFILES)
     for i in range(n):
@@ -219,7 +221,7 @@ def run(tier, seed, rng):
     # ---- (T)
     idx = [i for i, r in enumerate(res) if in_vocabulary(r) and r["ops"]]
     terms = [coq_term(cases[i]["ftab"], res[i]) for i in idx]
-    bad = fw.run_coq_cases("C13", REQ, "case", "check_case", terms, shard=20 if tier == "quick" else 60)
+    bad = fw.run_coq_cases("C13", REQ, "case", "check_case", terms, shard=40 if tier == "quick" else 100)
     for j in bad[:20]:
         i = idx[j]
         tm = {"case": dict(cases[i], ops=res[i]["ops"], gen=None),
